@@ -29,6 +29,12 @@ def prepare():
     if r.returncode != 0:
         sys.exit("cannot create worktree: " + r.stderr)
     shutil.copytree(os.path.join(VERIF, "harness"), MUT + "/harness")
+    # a driver file may be in the middle of an edit: fall back to the committed harness when the working copy does not build
+    r = sh("cd %s/harness && GOFLAGS=-mod=mod GOPROXY=off GOSUMDB=off GOTOOLCHAIN=local go build -tags verif -o /dev/null ./cmd/drv" % MUT)
+    if r.returncode != 0:
+        print("working-tree harness does not compile: using the committed one", flush=True)
+        shutil.rmtree(MUT + "/harness")
+        sh("git -C %s archive HEAD harness | tar -x -C %s" % (VERIF, MUT))
     gm = open(MUT + "/harness/go.mod").read().replace("=> /repo", "=> %s/repo" % MUT)
     open(MUT + "/harness/go.mod", "w").write(gm)
 
